@@ -3,6 +3,7 @@ package main
 // Go type -> SMT sort mapping, struct datatypes, zero values, type invariants.
 
 import (
+	"regexp"
 	"crypto/sha1"
 	"fmt"
 	"go/types"
@@ -74,7 +75,26 @@ func isTimeType(t types.Type) bool {
 	return false
 }
 
-func typeKey(t types.Type) string { return types.TypeString(t, nil) }
+var byteRuneRe = regexp.MustCompile(`(^|[^A-Za-z0-9_.])(byte|rune)($|[^A-Za-z0-9_])`)
+
+// typeKey: canonical type string (byte and rune are spelled uint8 and int32 so that one Go type has one key).
+func typeKey(t types.Type) string {
+	s := types.TypeString(t, nil)
+	if !strings.Contains(s, "byte") && !strings.Contains(s, "rune") {
+		return s
+	}
+	for i := 0; i < 4; i++ {
+		n := byteRuneRe.ReplaceAllStringFunc(s, func(m string) string {
+			m = strings.Replace(m, "byte", "uint8", 1)
+			return strings.Replace(m, "rune", "int32", 1)
+		})
+		if n == s {
+			break
+		}
+		s = n
+	}
+	return s
+}
 
 type unsupportedErr struct{ msg string }
 
